@@ -181,7 +181,9 @@ class GeminiClientProtocol(asyncio.Protocol):
                             break
                 try:
                     body = self.buffer.decode(charset)
-                except UnicodeDecodeError as e:
+                except (UnicodeDecodeError, LookupError) as e:
+                    # Undecodable body or unknown charset label: report it instead of
+                    # leaving the caller waiting for the timeout
                     self.response_future.set_exception(e)
                     return
             else:
@@ -402,7 +404,9 @@ class TitanClientProtocol(asyncio.Protocol):
                             break
                 try:
                     body = self.buffer.decode(charset)
-                except UnicodeDecodeError as e:
+                except (UnicodeDecodeError, LookupError) as e:
+                    # Undecodable body or unknown charset label: report it instead of
+                    # leaving the caller waiting for the timeout
                     self.response_future.set_exception(e)
                     return
             else:
